@@ -237,7 +237,7 @@ namespace awkward {
 
   const TypePtr
   RecordType::field(int64_t fieldindex) const {
-    if (fieldindex >= numfields()) {
+    if (fieldindex < 0  ||  fieldindex >= numfields()) {
       throw std::invalid_argument(
         std::string("fieldindex ") + std::to_string(fieldindex)
         + std::string(" for record with only ") + std::to_string(numfields())
